@@ -105,6 +105,10 @@ func HarnessProxyError() {
 	var inner http.Handler = http.HandlerFunc(func(w http.ResponseWriter, r *http.Request) {
 		t.handleProxyError(w, r, err)
 	})
+	if vChoose("buffer_responses", 2) == 1 {
+		// the same failure behind the response-buffering middleware (as NewTarget wires it)
+		inner = WithResponseBufferMiddleware(1024, 0, inner)
+	}
 	if customMode != 0 {
 		vCustomSets["/pages"] = &vPageSet{name: "custom", has: map[string]bool{page: customMode == 1}}
 		inner, _ = WithErrorPageMiddleware(vDirFS("/pages"), false, inner)
